@@ -46,6 +46,7 @@ def run(an: Analysis, rep):
     rep.run(r075, an, rep, enc, cdec)
     rep.run(r076, an, rep, enc, defs)
     rep.run(r077, an, rep, enc)
+    rep.run(r079, an, rep, enc, defs)
     from .common import SharedRules
     from . import c08
     from .common import rebuild_rule
@@ -770,3 +771,46 @@ def r077(an, rep, enc: FunctionInfo):
                      f"None: `dict < dict` raises TypeError, so to_json_data fails on a valid program (e.g. `x in {{b'GET', b'POST'}}`)" if prod else
                      f"`{norm_src(c)[:70]}` orders values that may be of types {mixed}: comparison between them raises TypeError"))
     rep.add("R07.7", "orderings examined", True, "code_data/", f"{n} key-less sorted/min/max/.sort() call(s) in the to_json closure", nontrivial=False)
+
+
+# ----------------------------------------------------------------------------- R07.9
+def r079(an, rep, enc: FunctionInfo, defs):
+    """A hand-written encoder arm for one data class (next to the generic `is_dataclass` arm) writes what the schema accepts: a key it stores
+    unconditionally for a field that can be None must be allowed to be null (the generic arm hides a None default)."""
+    rep.rule("R07.9", "class-specific encoder arms emit only what the schema accepts", 0)
+    tg = an.tg
+    p = enc.params[0]
+    arms, _ = isinstance_arms(enc, p)
+    dcs = {c.name: c for c in data_classes(an)}
+    n = 0
+    for names, body, node in arms:
+        for cname in names:
+            ci = dcs.get(cname)
+            if ci is None:
+                continue
+            n += 1
+            sdef = defs.get(ci.name) or {}
+            props = sdef.get("properties") or {}
+            # keys stored at the top level of the arm (not under an `if`): dict displays and `res["k"] = ...`
+            uncond = {}
+            for st in body:
+                if isinstance(st, ast.Assign) and isinstance(st.targets[0], ast.Subscript) and isinstance(st.targets[0].slice, ast.Constant):
+                    uncond[st.targets[0].slice.value] = st.value
+                for d in ([st.value] if isinstance(st, (ast.Assign, ast.Return, ast.AnnAssign)) and isinstance(getattr(st, "value", None), ast.Dict) else []):
+                    for k, v in zip(d.keys, d.values):
+                        if isinstance(k, ast.Constant):
+                            uncond[k.value] = v
+            for key, v in sorted(uncond.items(), key=lambda kv: str(kv[0])):
+                f = ci.field(key)
+                if f is None:
+                    rep.add("R07.9", f"{enc.qual}::{cname} arm key {key!r}", False, loc(enc.module, v), f"the {cname} arm writes the key {key!r}, which is not a field of {cname}")
+                    continue
+                ft = tg.unfold_rec(tg.field_type(f))
+                can_none = any(x == ("leaf", "None") for x in tg.leaves_in(ft))
+                raw = isinstance(v, ast.Attribute) and v.attr == key
+                ok = not (can_none and raw) or schema_accepts(defs, props.get(key), "null")
+                rep.add("R07.9", f"{enc.qual}::{cname} arm key {key!r}", ok, loc(enc.module, v),
+                        f"{key} written as `{norm_src(v)[:40]}`" if ok else
+                        f"the {cname} arm always writes `{key}` = `{norm_src(v)}`; the field is {tg.show(ft)}, so None is written as null, but the schema node {_short(props.get(key))} does not accept "
+                        f"null (the generic arm would have hidden the None default): documents of programs with such values (3.10: instructions without a line) fail JSON_SCHEMA")
+    rep.add("R07.9", "class-specific encoder arms examined", True, loc(enc.module, enc.node), f"{n} arm(s) for single data classes", nontrivial=False)
